@@ -1,6 +1,7 @@
 """C04 — output independent of batching and scheduling; every run terminates; tail -f contract (DESIGN 3/C04)."""
 import json, os, select, subprocess, tempfile, time, hashlib
 from vlib import *
+from checks import c04_flush
 
 EVENTS = ["verb.recv", "verb.relay", "verb.own", "verb.send", "verb.send.eos", "verb.err", "verb.sendE", "verb.errsig",
           "reader.poll", "reader.lines", "reader.send", "reader.err", "reader.send.eos",
@@ -172,7 +173,8 @@ def run(ctx):
                         ctx.violation({"broken": "trace-parse", "trace_head": tr[:500]}, found_input=False)
                     else:
                         traces.append(t[0]); tmeta.append((chain[0], cfg, st))
-        arrival_histories(ctx)
+        early_exit_correspondence(ctx, tmpdir)
+        c04_flush.run_flush(ctx)
     finally:
         import shutil
         shutil.rmtree(tmpdir, ignore_errors=True)
@@ -182,13 +184,105 @@ def run(ctx):
         with ctx.timed("coq_cases"):
             bad, err = coq_eval_mismatches(ctx, "C04", "C04.Model C04.Harness", "list (list Z)", "chk", traces, shard=200)
         ctx.cov["traces_validated_against_impl"] = len(traces) - len(bad)
-        ctx.cov["correspondence"] = {"traces": len(traces), "rejected": len(bad)}
+        ctx.cov["correspondence"].update({"traces": len(traces), "rejected": len(bad)})
         if err:
             ctx.violation({"broken": "trace-validation-evaluation", "detail": err[-1500:]}, found_input=False)
         for i in bad[:3]:
             ch, cfg, st = tmeta[i]
             ctx.violation({"broken": "correspondence C04.Harness.chk: a goroutine of the real binary left the model's control automaton",
                            "chain": ch, "config": [cfg[0], cfg[1], cfg[2]], "trace": traces[i][:1500]}, found_input=False)
+
+
+DESC = {"cat": 0, "tee": 1, "print": 2, "tac": 3}
+
+
+def early_exit_correspondence(ctx, tmpdir):
+    """The data-carrying model with done flags (coq/C04/DataFlags.v, instances in EarlyInst.v) against the binary:
+    for chains of cat / tee / head -n k / tac / put 'print' the stdout of every run (batch sizes, seeded perturbation)
+    must be an outcome the model allows: the sequential result on the whole input when no printing verb is upstream
+    of a head (C04_early_exit_determinism_head_tee_tac_chains), else the sequential result on some truncation."""
+    rng = ctx.rng
+    fixed = [["cat", 13], [13, 12], ["cat", 13, "tee", 12, "tac"], ["tee", 12], ["tac", 12], [12, "print"], ["print", 11],
+             ["print", "cat", 12], [15, "tac", 11], ["tee", 11, 11], ["cat", "tee", "cat", 14, 13, 12]]
+    pool_ = ["cat", "tee", "print", "tac", 11, 12, 13, 15]
+    chains = fixed + [[rng.choice(pool_) for _ in range(rng.choice([2, 3, 4]))] for _ in range(10 if ctx.tier == "quick" else 150)]
+    jobs = []
+    for ci, ch in enumerate(chains):
+        for rep in range(2 if ctx.tier == "quick" else 5):
+            n = rng.choice([7, 12, 23, 40])
+            b = rng.choice([1, 2, 3, 5])
+            sched = None if rep == 0 else rng.randint(1, 10 ** 6)
+            jobs.append((ci, ch, n, b, sched))
+
+    def argv_of(ch, tag):
+        argv, tees = [], []
+        for v in ch:
+            if argv:
+                argv.append("then")
+            if v == "cat":
+                argv += ["cat"]
+            elif v == "tee":
+                f = os.path.join(tmpdir, "early-tee.%s.%d" % (tag, len(tees))); tees.append(f)
+                argv += ["tee", f]
+            elif v == "print":
+                argv += ["put", 'print "p".$i']
+            elif v == "tac":
+                argv += ["tac"]
+            else:
+                argv += ["head", "-n", str(v - 10)]
+        return argv, tees
+
+    def one(j):
+        ci, ch, n, b, sched = j
+        argv, tees = argv_of(ch, "%d.%d.%d.%s" % (ci, n, b, sched))
+        inp = "".join("i=%d\n" % k for k in range(1, n + 1)).encode()
+        env = {"MLR_VERIF_SCHED": str(sched)} if sched is not None else {}
+        st, out, err = mlr_run(ctx, ["--records-per-batch", str(b)] + argv, inp, timeout=60, env=env)
+        teelines = None
+        if ch[0] == "tee" and tees and os.path.exists(tees[0]):
+            teelines = open(tees[0], "rb").read().count(b"\n")
+        return st, out, err, argv, teelines
+    from concurrent.futures import ThreadPoolExecutor
+    with ThreadPoolExecutor(max_workers=8) as ex:
+        res = list(ex.map(one, jobs))
+    terms, meta = [], []
+    for j, (st, out, err, argv, teelines) in zip(jobs, res):
+        ci, ch, n, b, sched = j
+        ctx.count(("early", tuple(ch), n, b, sched)); ctx.dist("early-exit-model")
+        if st != 0:
+            ctx.violation({"class": "early-exit-run-failed", "chain": argv, "status": st, "stderr_tail": err[-300:].decode("latin1"), "input_records": n,
+                           "main_flags": ["--records-per-batch", str(b)]})
+            continue
+        obs, okparse = [], True
+        for line in out.decode("latin1").splitlines():
+            if line.startswith("i="):
+                obs.append(2 * int(line[2:]))
+            elif line.startswith("p"):
+                obs.append(2 * int(line[1:]) + 1)
+            else:
+                okparse = False
+        if not okparse:
+            ctx.violation({"class": "early-exit-unexpected-output", "chain": argv, "stdout_head": out[:300].decode("latin1")})
+            continue
+        if teelines is not None and teelines != n:
+            ctx.violation({"class": "tee-file-truncated", "what": "tee upstream of head must see every record (tee swallows the done flag): %d of %d lines" % (teelines, n),
+                           "chain": argv, "main_flags": ["--records-per-batch", str(b)], "input_records": n, "sched_seed": sched,
+                           "how": "seq 1 %d | sed s/^/i=/ | mlr --records-per-batch %d %s" % (n, b, " ".join(argv))})
+        terms.append("([%s], (%d, %d), [%s])" % ("; ".join(str(DESC.get(v, v)) for v in ch), n, b, "; ".join(str(x) for x in obs)))
+        meta.append((argv, n, b, sched, out))
+    if terms:
+        with ctx.timed("coq_early_cases"):
+            bad, err = coq_eval_mismatches(ctx, "C04early", "C04.EarlyInst", "list Z * (Z * Z) * list Z", "early_chk", terms)
+        ctx.cov["correspondence"]["early_exit_runs"] = len(terms)
+        ctx.cov["correspondence"]["early_exit_rejected"] = len(bad)
+        if err:
+            ctx.violation({"broken": "early-exit-evaluation", "detail": err[-1500:]}, found_input=False)
+        for i in [x for x in bad if x >= 0][:3]:
+            argv, n, b, sched, out = meta[i]
+            ctx.violation({"class": "early-exit-model:" + " ".join(argv), "what": "stdout is not an outcome of the data model with done flags (C04.EarlyInst.early_chk)",
+                           "chain": argv, "main_flags": ["--records-per-batch", str(b)], "input_records": n, "sched_seed": sched,
+                           "stdout_head": out[:400].decode("latin1"),
+                           "how": "seq 1 %d | sed s/^/i=/ | mlr --records-per-batch %d %s" % (n, b, " ".join(argv))})
 
 
 def arrival_histories(ctx):
